@@ -11,7 +11,8 @@ DS_NAMES = ["a", "b", "c"]
 # ---------------------------------------------------------------- content catalogue
 NESTED1 = {"id": "n1", "props": {"q": 1}, "refs": {}}
 NESTED2 = {"id": "n2", "props": {"q": "zz"}, "refs": {"r1": "e1"}}
-VALUES = ["a", "b", "bb", "xyz", "uvw", 1, 2, 22, True, False, [1, 2], ["a", "b"], [], NESTED1, NESTED2, [NESTED1], "aaaaaaaaaaaaaaa"]
+VALUES = ["a", "b", "bb", "xyz", "uvw", 1, 2, 22, True, False, [1, 2], ["a", "b"], [], NESTED1, NESTED2, [NESTED1], "aaaaaaaaaaaaaaa",
+          1.5, 1.2, -3, 0, "", "\u00e9", [[1, 2], [3]], [1.5, "a"]]
 PKEYS = ["p1", "p2", "p3", "p4"]
 RKEYS = ["r1", "r2"]
 IDS = ["e1", "e2", "e3", "e4", "e5"]
@@ -466,7 +467,7 @@ def gen_race(rng, pool, memo, ds, reader, rich=True):
     return op
 
 
-SAME_LEN = [["a", "b"], ["bb", "zz"], ["xyz", "uvw"], [1, 2]]
+SAME_LEN = [["a", "b"], ["bb", "zz"], ["xyz", "uvw"], [1, 2], [1.5, 1.2]]
 
 
 def same_length_mutation(rng, prev):
